@@ -6,6 +6,8 @@ cd /repo || exit 2
 if ! git diff --quiet; then echo "/repo has uncommitted changes" >&2; exit 2; fi
 git apply "$PATCH" || { echo "patch does not apply" >&2; exit 2; }
 cd /verif
+export PV_EVIDENCE_DIR=/tmp/mut_evidence
+mkdir -p $PV_EVIDENCE_DIR
 for id in "$@"; do
     PV_NO_SHRINK=${PV_NO_SHRINK-1} ./check "$id" quick >/tmp/mut_$id.out 2>/tmp/mut_$id.err
     rc=$?
